@@ -13,6 +13,7 @@ type Injection struct {
 	Placement string   `json:"placement"` // top | nested | second_file | imported
 	Offenders []string `json:"offenders"` // names one of which the error message must mention
 	Class     string   `json:"class"`     // "json" (JSON-mapping rule), "unwrap", "http" (transport rule)
+	Shape     string   `json:"shape,omitempty"`
 }
 
 // Rules lists the catalogue of injectable rule violations (property C12).
@@ -45,6 +46,10 @@ var Placements = []string{"top", "nested", "second_file", "imported"}
 // Inject adds one rule violation to s (in place) and returns its description. The schema must
 // be a valid one produced by Generate. For transport rules the placement is always "top"
 // (they concern an RPC's request message and its method annotation).
+// InjectShape selects the field shape (singular, repeated, map, oneof member) for rules that admit several;
+// negative = drawn. The caller cycles it so that a cell's few cases cover every shape.
+var InjectShape = -1
+
 func Inject(t *rapid.T, s *Schema, rule, placement string) *Injection {
 	inj := &Injection{Rule: rule, Placement: placement, Class: RuleClass(rule)}
 	main := s.Files[0]
@@ -111,7 +116,14 @@ func Inject(t *rapid.T, s *Schema, rule, placement string) *Injection {
 	// shape varies where the misplaced annotation sits: a plain field, a list, a map, or a member of a
 	// real oneof (which has presence but no optional keyword)
 	shape := func(label string) {
-		switch rapid.SampledFrom([]string{"singular", "singular", "repeated", "map", "oneof"}).Draw(t, label) {
+		sh := ""
+		if InjectShape >= 0 {
+			sh = []string{"singular", "repeated", "map", "oneof"}[InjectShape%4]
+		} else {
+			sh = rapid.SampledFrom([]string{"singular", "singular", "repeated", "map", "oneof"}).Draw(t, label)
+		}
+		inj.Shape = sh
+		switch sh {
 		case "repeated":
 			bad.Card = Repeated
 		case "map":
